@@ -88,7 +88,7 @@ def main(tier, seed):
     rep = C.Reporter(PID, tier, seed)
     C.build(['repo', 'core'])
     C.sweep_stale_tmp()
-    n = 1500 if tier == 'quick' else 40000
+    n = 4000 if tier == 'quick' else 60000
     rundir = C.mktmp(PID)
     _RUN.update(tier=tier, seed=seed, dir=rundir)
     results = C.pmap(_case, list(range(n)), chunksize=4, stop_after_bad=60,
@@ -136,5 +136,6 @@ def main(tier, seed):
     minimum = {'evaluations': (evaluated, 300 if tier == 'quick' else 5000),
                'jump': (featc.get('jump', 0), 50), 'stdin': (featc.get('stdin', 0), 30),
                'exit': (featc.get('exit0', 0) + featc.get('exit1', 0), 30),
-               'steps': (hist.get('steps_compared_one', 0), 5000)}
+               'steps': (hist.get('steps_compared_one', 0), 5000),
+               'heart_after_heart': (featc.get('heart_after_heart', 0), 5)}
     return rep.finish(cov, assumptions, t0, minimum)
